@@ -40,7 +40,7 @@ TRUSTED_BASE = [
     "Coq 8.16.1 kernel (coqc, full .vo build; vm_compute used in finite-domain lemmas and to evaluate cases; no native_compute)",
     "the specifications in coq/Base/*Spec.v and the statements in coq/Properties/*.v",
     "hand-written Gallina models of the Go code (coq/{Enc,Api,Heap,Lts,Misc}); tied to /repo by go2coq tables (coq/Gen) and by the correspondence run of this check",
-    "srcgen (harness/cmd/srcgen): the Go-subset-to-Gallina translator that regenerates coq/Gen/JsonSrc.v, CborSrc.v, RootSrc.v, DecSrc.v, SamplerSrc.v, GateSrc.v, LevelSrc.v, EventSrc.v, ProxySrc.v, WriterSrc.v and TriggerSrc.v from the working tree, and the semantics it targets (coq/Base/GoSem.v: wrap-around integers, Panic/Fuel/Unsup outcomes, slices as lists without aliasing; coq/Base/GoEff.v: functions over a *bufio.Reader / io.Writer as state transformers - one stream, ReadByte / UnreadByte-after-ReadByte / Peek(1), EOF the only read error, Write accepts everything, panic(error) and the deferred recover of Cbor2JsonManyObjects; coq/Enc/GoStd.v, coq/Enc/DecStd.v: the contracts of utf8.DecodeRune, strconv.AppendInt/Uint/Bool/Itoa, time methods as oracle records, net.IP/HardwareAddr/IPNet String and CIDRMask, and the two decoder functions called through hand-written stubs; coq/Base/GoExt.v: pointer-receiver methods as functions over the record of the struct's scalar fields, sync/atomic operations on a field as its sequential read/modify/write, interface-typed fields as opaque - calls through them are logged and answered by an environment function the theorems quantify over)",
+    "srcgen (harness/cmd/srcgen): the Go-subset-to-Gallina translator that regenerates coq/Gen/JsonSrc.v, CborSrc.v, RootSrc.v, DecSrc.v, SamplerSrc.v, GateSrc.v, LevelSrc.v, EventSrc.v, FieldSrc.v, ArraySrc.v, ProxySrc.v, WriterSrc.v and TriggerSrc.v from the working tree, and the semantics it targets (coq/Base/GoSem.v: wrap-around integers, Panic/Fuel/Unsup outcomes, slices as lists without aliasing; coq/Base/GoEff.v: functions over a *bufio.Reader / io.Writer as state transformers - one stream, ReadByte / UnreadByte-after-ReadByte / Peek(1), EOF the only read error, Write accepts everything, panic(error) and the deferred recover of Cbor2JsonManyObjects; coq/Enc/GoStd.v, coq/Enc/DecStd.v: the contracts of utf8.DecodeRune, strconv.AppendInt/Uint/Bool/Itoa, time methods as oracle records, net.IP/HardwareAddr/IPNet String and CIDRMask, and the two decoder functions called through hand-written stubs; coq/Base/GoExt.v: pointer-receiver methods as functions over the record of the struct's scalar fields, sync/atomic operations on a field as its sequential read/modify/write, interface-typed fields as opaque - calls through them are logged and answered by an environment function the theorems quantify over)",
     "harness: Go drivers, Gallina case printers, overlay shim (harness/shim, tag verif), lib/verifcheck.py",
     "Go toolchain and standard library behaviour used as oracles where stated",
 ]
